@@ -949,6 +949,35 @@ impl<'a> Lifter<'a> {
                 }
                 Ok(format!("{}({})", segs.join("::"), out.join(", ")))
             }
+            syn::Pat::Struct(ps) => {
+                // `Enum::V { f, g: pat, .. }` of a lifted enum with struct variants
+                let mut segs: Vec<String> = ps.path.segments.iter().map(|s| s.ident.to_string()).collect();
+                if segs[0] == "Self" {
+                    segs[0] = self.self_ty.clone().ok_or("Self outside impl")?;
+                }
+                if segs.len() >= 2 {
+                    if let Some(t) = self.reg.types.get(&segs[0]) {
+                        if t.starts_with("L_") {
+                            segs[0] = t.clone();
+                        }
+                    }
+                }
+                let key = format!("{}{{}}", segs.join("::"));
+                let Some(ftys) = self.reg.types.get(&key).cloned() else { return unsupported("struct pattern of a type that is not a lifted enum variant", p) };
+                let ftys: Vec<(String, String)> = ftys.split(';').filter_map(|kv| kv.split_once(':').map(|(a, b)| (a.to_string(), b.to_string()))).collect();
+                let mut out = Vec::new();
+                for fp in &ps.fields {
+                    let syn::Member::Named(id) = &fp.member else { return unsupported("struct pattern member", p) };
+                    let fname = id.to_string();
+                    let fty = ftys.iter().find(|(n, _)| *n == fname).map(|(_, t)| t.clone()).unwrap_or("?".into());
+                    let sub = self.pattern(&fp.pat, &fty)?;
+                    out.push(format!("{fname}: {sub}"));
+                }
+                if ps.rest.is_some() || out.len() < ftys.len() {
+                    out.push("..".into());
+                }
+                Ok(format!("{} {{ {} }}", segs.join("::"), out.join(", ")))
+            }
             syn::Pat::Path(pp) => {
                 let mut segs: Vec<String> = pp.path.segments.iter().map(|s| s.ident.to_string()).collect();
                 if segs[0] == "Self" {
@@ -3483,6 +3512,7 @@ pub fn lenum(ctx: &mut Ctx, blk: &Block) -> Result<(String, Value), String> {
     let lname = format!("L_{name}");
     let mut variants = Vec::new();
     let mut payloads = Vec::new();
+    let mut named_fields: Vec<(String, String)> = Vec::new();
     for vv in &en.variants {
         match &vv.fields {
             syn::Fields::Unit => variants.push(format!("    {},", vv.ident)),
@@ -3494,7 +3524,20 @@ pub fn lenum(ctx: &mut Ctx, blk: &Block) -> Result<(String, Value), String> {
                 variants.push(format!("    {}({}),", vv.ident, tys.join(", ")));
                 payloads.push((format!("{lname}::{}", vv.ident), format!("({})", tys.join(", "))));
             }
-            syn::Fields::Named(_) => return Err("lenum: struct variants not supported".into()),
+            syn::Fields::Named(n) => {
+                // struct variant `V { f: T, .. }`: kept as a struct variant; field types registered as
+                // `L_Enum::V{}` => "f1:t1;f2:t2" for the pattern rule
+                let mut fs = Vec::new();
+                let mut reg = Vec::new();
+                for f in &n.named {
+                    let fname = f.ident.as_ref().map(|i| i.to_string()).unwrap_or_default();
+                    let t = lift_type(&ctx.lift, &f.ty, Some(&name)).map_err(|e| format!("variant {}: {e}", vv.ident))?;
+                    fs.push(format!("{fname}: {t}"));
+                    reg.push(format!("{fname}:{t}"));
+                }
+                variants.push(format!("    {} {{ {} }},", vv.ident, fs.join(", ")));
+                named_fields.push((format!("{lname}::{}{{}}", vv.ident), reg.join(";")));
+            }
         }
     }
     let src: &str = &ctx.files[&file].0;
@@ -3512,6 +3555,9 @@ pub fn lenum(ctx: &mut Ctx, blk: &Block) -> Result<(String, Value), String> {
         ctx.lift.variants.insert(vv.ident.to_string(), (full, lname.clone(), ptys));
     }
     for (k, t) in payloads {
+        ctx.lift.types.insert(k, t);
+    }
+    for (k, t) in named_fields {
         ctx.lift.types.insert(k, t);
     }
     Ok((format!("pub enum {lname} {{\n{}\n}}\n", variants.join("\n")), rep))
@@ -3602,7 +3648,7 @@ pub fn lift_fn(ctx: &mut Ctx, blk: &Block) -> Result<(String, Value), String> {
     let mut out_param = None;
     for a in &f.sig.inputs {
         match a {
-            syn::FnArg::Receiver(_) if blk.opt("tail_from").is_some() || blk.opt("let_of").is_some() || blk.opt("assign_of").is_some() => {}
+            syn::FnArg::Receiver(_) if blk.opt("tail_from").is_some() || blk.opt("let_of").is_some() || (blk.opt("assign_of").is_some() || blk.opt("range_of").is_some()) => {}
             syn::FnArg::Receiver(_) => {
                 let t = match &self_ty {
                     Some(st) => reg.types.get(st).cloned().unwrap_or(format!("L_{st}")),
@@ -3623,7 +3669,7 @@ pub fn lift_fn(ctx: &mut Ctx, blk: &Block) -> Result<(String, Value), String> {
                 }
                 let ty = match lift_type(reg, &t.ty, self_ty.as_deref()) {
                     Ok(t) => t,
-                    Err(_) if blk.opt("tail_from").is_some() || blk.opt("let_of").is_some() || blk.opt("assign_of").is_some() => continue, // tail lifts declare what they read themselves
+                    Err(_) if blk.opt("tail_from").is_some() || blk.opt("let_of").is_some() || (blk.opt("assign_of").is_some() || blk.opt("range_of").is_some()) => continue, // tail lifts declare what they read themselves
                     Err(e) => return Err(format!("parameter {pn}: {e}")),
                 };
                 params.push((pn, ty));
@@ -3880,7 +3926,7 @@ pub fn lift_fn(ctx: &mut Ctx, blk: &Block) -> Result<(String, Value), String> {
     // L29 binding-as-function: `let_of=<local> tail_locals=a:T;b:U ret=<type>` lifts the initialiser of the (first) binding
     // of <local> - wherever it sits, e.g. in the innermost of nested loops the lifter cannot read - as a function of the
     // listed variables; every variable the initialiser reads must be listed
-    let let_or_assign: Option<String> = blk.opt("let_of").map(|x| x.to_string()).or(blk.opt("assign_of").map(|x| format!("={x}")));
+    let let_or_assign: Option<String> = blk.opt("let_of").map(|x| x.to_string()).or(blk.opt("assign_of").map(|x| format!("={x}"))).or(blk.opt("range_of").map(|x| format!("~{x}")));
     if let Some(lname0_owned) = let_or_assign {
         let lname0 = lname0_owned.as_str();
         // `let_of=@callee.k[.m]`: the local is named by the data flow - the identifier handed to the first call of
@@ -3951,7 +3997,31 @@ pub fn lift_fn(ctx: &mut Ctx, blk: &Block) -> Result<(String, Value), String> {
             }
         }
         let mut init: syn::Expr;
-        if let Some(aname) = lname.strip_prefix('=') {
+        if let Some(rname) = lname.strip_prefix('~') {
+            // L29f `range_of=<i>`: the bounds of the first `for <i> in a..b` / `a..=b` loop, as the pair (a, b) of a
+            // half-open range (`a..=b` gives (a, b + 1)): a contract can say which indices a loop visits
+            struct FindFor<'x> { name: String, found: Option<&'x syn::ExprForLoop> }
+            impl<'ast> syn::visit::Visit<'ast> for FindFor<'ast> {
+                fn visit_expr_for_loop(&mut self, f: &'ast syn::ExprForLoop) {
+                    if self.found.is_none() && matches!(&*f.pat, syn::Pat::Ident(pi) if pi.ident == self.name) {
+                        self.found = Some(f);
+                    }
+                    syn::visit::visit_expr_for_loop(self, f);
+                }
+            }
+            let mut ff = FindFor { name: rname.to_string(), found: None };
+            syn::visit::Visit::visit_block(&mut ff, f.block);
+            let Some(fl) = ff.found else { return Err(format!("lost anchor: no `for {rname} in ..` loop in {path}")) };
+            let mut r = &*fl.expr;
+            while let syn::Expr::Paren(p) = r { r = &p.expr; }
+            let syn::Expr::Range(rg) = r else { return Err(format!("construct outside rule list (lift): the loop over `{rname}` in {path} does not iterate over a range")) };
+            let (Some(a), Some(b)) = (&rg.start, &rg.end) else { return Err(format!("construct outside rule list (lift): open range in the loop over `{rname}`")) };
+            init = if matches!(rg.limits, syn::RangeLimits::Closed(_)) {
+                syn::parse2(quote::quote!(((#a), (#b) + 1))).map_err(|e| e.to_string())?
+            } else {
+                syn::parse2(quote::quote!(((#a), (#b)))).map_err(|e| e.to_string())?
+            };
+        } else if let Some(aname) = lname.strip_prefix('=') {
             // L29c `assign_of=<var>`: the right-hand side of the first plain assignment `var = <expr>;`
             // `assign_of=<var>#<n>`: the n-th (0-based, source order) assignment; compound assignments `var += e`,
             // `var -= e` count as assignments and give `e`
@@ -4216,7 +4286,7 @@ pub fn lift_fn(ctx: &mut Ctx, blk: &Block) -> Result<(String, Value), String> {
     }
     let fblock: &syn::Block = synth_block.as_ref().unwrap_or(f.block);
     let ret_ty = match &f.sig.output {
-        _ if blk.opt("closure").is_some() || blk.opt("tail_from").is_some() || blk.opt("let_of").is_some() || blk.opt("assign_of").is_some() => blk.opt("ret").ok_or("lift: closure= / tail_from= need ret=<type>")?.to_string(),
+        _ if blk.opt("closure").is_some() || blk.opt("tail_from").is_some() || blk.opt("let_of").is_some() || (blk.opt("assign_of").is_some() || blk.opt("range_of").is_some()) => blk.opt("ret").ok_or("lift: closure= / tail_from= need ret=<type>")?.to_string(),
         // `ret=<type>` overrides a return type the type lifter cannot read (qualified associated types)
         _ if blk.opt("ret").is_some() => blk.opt("ret").unwrap().to_string(),
         syn::ReturnType::Default => match &out_param {
